@@ -207,9 +207,12 @@ def gen_synth(rng):
     decl = {"A": ["K", "M"], "B": ["K", "N"], "C": ["M", "N"], "D": ["N"], "T": ["K", "M", "N"],
             "Z": ["M", "N"], "Y": ["M"]}
     decl["E"] = ["M", "N"]
+    decl["P"] = ["M"]
+    decl["R"] = ["N"]
     all_exprs = ["T[k, m, n] = A[k, m] * B[k, n]",
                  rng.choice(["Z[m, n] = T[k, m, n] * C[m, n]", "Z[m, n] = T[k, m, n] * C[m, n]", "Z[m, n] = T[k, m, n]",
-                             "Z[m, n] = T[k, m, n] * C[m, n] * E[m, n]", "Z[m, n] = C[m, n] * T[k, m, n] * E[m, n]"]),
+                             "Z[m, n] = T[k, m, n] * C[m, n] * E[m, n]", "Z[m, n] = C[m, n] * T[k, m, n] * E[m, n]",
+                             "Z[m, n] = P[m] * R[n] * T[k, m, n]"]),
                  "Y[m] = Z[m, n] * D[n]"]
     exprs = all_exprs[:n]
     used = set()
@@ -272,8 +275,12 @@ def gen_synth(rng):
         hold = classes.holders_of(spec, e)
         co = [r for r in lo[o] if len(hold.get(r, [])) >= 2]
         isect_used = False
+        want_isect = rng.choice(["LF", "LF", "TF", "SA"]) if rng.random() < 0.5 else None
         for c in FUNC:
-            if rng.random() > 0.35:
+            if c in ("TF", "SA", "LF"):
+                if c != want_isect:
+                    continue
+            elif rng.random() > 0.35:
                 continue
             if fusable:
                 if c not in pool_left:
@@ -288,7 +295,7 @@ def gen_synth(rng):
             elif c in ("TF", "SA", "LF"):
                 if not co or isect_used:
                     continue
-                rs = rng.sample(co, 2) if len(co) >= 2 and rng.random() < 0.35 else [rng.choice(co)]
+                rs = rng.sample(co, 2) if len(co) >= 2 and rng.random() < 0.5 else [rng.choice(co)]
                 bs = []
                 for r in rs:
                     b = {"rank": r}
@@ -333,6 +340,58 @@ def gen_synth(rng):
     return spec, meta
 
 
+def gen_synth_part(rng):
+    """Metrics mode over a dynamically / statically partitioned matmul: functional components only
+    (compute, sequencer, one intersector), so that hoisting of partitioning statements and the
+    metrics hooks meet in one flow graph."""
+    decl = {"A": ["K", "M"], "B": ["K", "N"], "Z": ["M", "N"]}
+    expr = "Z[m, n] = A[k, m] * B[k, n]"
+    spec = {"decl": decl, "exprs": [expr], "rank_order": None, "partitioning": None, "loop_order": None,
+            "spacetime": None, "arch": None, "bindings": None, "format": None}
+    part = {}
+    syms = {}
+    hold = {"K": ["A", "B"], "M": ["A"], "N": ["B"]}
+    extents = {"K": rng.randint(3, 7), "M": rng.randint(2, 5), "N": rng.randint(2, 5)}
+    for r in rng.sample(["K", "M", "N"], rng.randint(1, 2)):
+        if rng.random() < 0.7:
+            dirs, _ = classes.occ_stack(rng, r, hold[r], extents[r])
+            dirs = [d for d in dirs if d.startswith("uniform_shape") or d[d.rindex(".") + 1:-1].isdigit()]
+            if not dirs:
+                dirs = ["uniform_occupancy(%s.2)" % hold[r][0]]
+        else:
+            dirs, _ = classes.shape_stack(rng, r, extents[r], max_levels=2, symbolic_p=0.0)
+        part[r] = dirs
+    spec["partitioning"] = {"Z": part}
+    groups = [classes.levels_of(r, len(part[r])) if r in part else [r] for r in ["M", "N", "K"]]
+    lo = classes.loop_order_over(rng, groups, "ordered")
+    spec["loop_order"] = {"Z": lo}
+    k = rng.randint(0, 1)
+    space = [lo[rng.randrange(1, len(lo))]] if k and len(lo) > 1 else []
+    spec["spacetime"] = {"Z": {"space": space, "time": [r for r in lo if r not in space]}}
+    arch, ainfo = _arch(rng)
+    spec["arch"] = arch
+    spec["format"] = {t: {"default": {"rank-order": list(rs), **{r: {"format": "C", "cbits": 32, "pbits": 32} for r in rs}}}
+                      for t, rs in decl.items()}
+    bl = [{"config": "cfgA", "prefix": "tmp/Z"}]
+    if rng.random() < 0.7:
+        bl.append({"component": "Mul0", "bindings": [{"op": "mul"}]})
+    if rng.random() < 0.5:
+        bl.append({"component": "Add0", "bindings": [{"op": "add"}]})
+    if rng.random() < 0.5:
+        bl.append({"component": "Seq", "bindings": [{"rank": r} for r in lo[:rng.randint(1, min(3, len(lo)))]]})
+    if rng.random() < 0.5:
+        klev = [r for r in lo if r.startswith("K")]
+        c = rng.choice(["TF", "SA", "LF"])
+        b = {"rank": klev[-1]}
+        if c == "LF":
+            b["leader"] = "A"
+        bl.append({"component": c, "bindings": [b]})
+    spec["bindings"] = {"Z": bl}
+    meta = {"class": "M", "mkind": "synth_part", "name": "synth_part", "syms": syms, "extents": extents, "mode": "metrics",
+            "nlevels": sum(len(d) for d in part.values()), "npart": len(part)}
+    return spec, meta
+
+
 def _append_bindings(bl, comp, items):
     if comp == "L2":
         items = [{k: v for k, v in b.items() if k not in ("evict-on", "style")} for b in items]
@@ -343,9 +402,12 @@ def _append_bindings(bl, comp, items):
     bl.append({"component": comp, "bindings": items})
 
 
-def gen_metrics(rng, repo="/repo", accel_p=0.4):
-    if rng.random() < accel_p:
+def gen_metrics(rng, repo="/repo", accel_p=0.35):
+    x = rng.random()
+    if x < accel_p:
         return gen_accel(rng, repo)
+    if x < accel_p + 0.15:
+        return gen_synth_part(rng)
     return gen_synth(rng)
 
 
